@@ -432,6 +432,8 @@ pub fn dwarf_dump<'a>(dwarf: &gimli::Dwarf<Rdr<'a>>) -> Result<DwarfDump, String
                 root.attrs.retain(|a| a.0 != 0x10);
             }
         }
+        // the writer documents that base types among the root's children are emitted first: compare modulo that
+        let entries = base_types_first(entries);
         out.push(UnitDump { version: encoding.version, format64: encoding.format == gimli::Format::Dwarf64, address_size: encoding.address_size, entries, line });
     }
     Ok(DwarfDump { units: out })
@@ -594,4 +596,26 @@ pub fn diff_dumps(a: &DwarfDump, b: &DwarfDump) -> Option<(String, String)> {
         }
     }
     None
+}
+
+/// Stable partition of the root's child subtrees: DW_TAG_base_type subtrees first.
+pub fn base_types_first(entries: Vec<EntryDump>) -> Vec<EntryDump> {
+    if entries.is_empty() {
+        return entries;
+    }
+    let root = entries[0].clone();
+    let mut subtrees: Vec<Vec<EntryDump>> = Vec::new();
+    for e in entries.into_iter().skip(1) {
+        if e.depth == root.depth + 1 || subtrees.is_empty() {
+            subtrees.push(vec![e]);
+        } else {
+            subtrees.last_mut().unwrap().push(e);
+        }
+    }
+    let (bt, other): (Vec<Vec<EntryDump>>, Vec<Vec<EntryDump>>) = subtrees.into_iter().partition(|t| t[0].tag == 0x24);
+    let mut out = vec![root];
+    for t in bt.into_iter().chain(other) {
+        out.extend(t);
+    }
+    out
 }
